@@ -136,7 +136,7 @@ const SPECS: &[PropSpec] = &[
         engine: "routersim",
         level: "fault_enumeration",
         runs_quick: 800,
-        runs_thorough: 30000,
+        runs_thorough: 20000,
         rule: "one evaluation = one seeded history (persistent subscriber with 1-3 non-overlapping filters at QoS 0-2, 1-3 publishers, ack lag, 30-150 scheduler steps) re-executed for EVERY step index x 4 ways of ending the subscriber's connection (DISCONNECT packet, link failure, router-initiated close after a protocol error, takeover), followed by up to 3 reconnect cycles with seeded clean flags; crash_points_enumerated counts the re-executions; distinct = hash over all re-executions; non-trivial = forwards were delivered in some re-execution",
         state_measure: "per router step: hash over connections of (tracker status, scheduled?, #tracked, #parked, inflight bucket, outgoing-buffer bucket, incoming bucket) + groups + graveyard size + channel bucket",
         real: ROUTER_REAL,
@@ -148,8 +148,8 @@ const SPECS: &[PropSpec] = &[
         id: "C05",
         engine: "streamsim",
         level: "exploration",
-        runs_quick: 500_000,
-        runs_thorough: 10_000_000,
+        runs_quick: 2000000,
+        runs_thorough: 40000000,
         rule: "one run = one decoder (rumqttc v4 / rumqttc v5 / rumqttd V4 / rumqttd V5), one max-packet-size from {2,10,100,1024,10240,268435455} (rumqttc v5 also None), one byte stream (1-8 valid frames from the matching-version encoders; the same with 1-3 mutations: bit flip, byte overwrite, remaining-length edit, truncation, type-nibble rewrite, slice duplicate/delete/insert; 0-40 random bytes; fixed-header boundary case: any first byte x remaining-length encodings {0,1,2,127,128,16383,16384,2097151,2097152,268435455, ff ff ff ff 01} with short / exact / exact-1 / exact+k body), one EOF offset (end or seeded prefix) and one chunking (whole, byte-by-byte, random cuts, cuts inside the fixed header / length bytes / one byte before frame end) with seeded Pending injections; distinct = trace hash; non-trivial = at least 2 chunks and the one-shot reference produced a packet or a malformed-packet error",
         state_measure: "(decoder, reference terminal condition clean/need-more/malformed, packets decoded (cap 15), chunks (cap 255)) per run",
         real: &["rumqttc::mqttbytes::v4::{Packet::read, Codec} behind tokio_util::codec::Framed", "rumqttc::v5::mqttbytes::v5::{Packet::read, Codec} behind tokio_util::codec::Framed", "rumqttd::protocol::v4::V4 and v5::V5 (Protocol::read_mut)", "rumqttd::link::network::Network::{read, read_bytes, readv}", "the four encoders (Packet::write, Protocol::write) as sources of valid frames", "tokio current-thread runtime (paused clock)"],
@@ -166,8 +166,8 @@ const SPECS: &[PropSpec] = &[
         id: "C19",
         engine: "netsim",
         level: "exploration",
-        runs_quick: 40000,
-        runs_thorough: 800000,
+        runs_quick: 300000,
+        runs_thorough: 4000000,
         rule: "one run = a v4 or v5 listener with one of four authentication configurations (none / static / external callback / both) and max_connections 2-4, an admitted witness subscribed to probe/#, then 1-6 connection attempts: first packet CONNECT / CONNECT of the other protocol version / non-CONNECT / garbage / nothing, client ids incl. + $ # / and empty, clean or not, keep-alive 0, logins absent / right / wrong, takeovers and departures; each followed by SUBSCRIBE + PUBLISH whose effect the witness observes; a reference admission predicate decides (left open where static and external credentials disagree); router snapshot invariants (distinct client ids, <= max_connections) after each attempt; non-trivial = at least 2 attempts",
         state_measure: "not measured for this engine (distinct traces only)",
         real: &["rumqttd server::broker::remote() (per-connection task) through Server::verif_accept", "rumqttd link::remote::{mqtt_connect, handle_auth, RemoteLink::new/start}", "rumqttd link::network::Network<V4|V5> and both broker codecs", "rumqttd LinkBuilder::build (block point steps the router)", "rumqttd::Router (whole routing core)", "rumqttc codecs (client side encode/decode)", "tokio current-thread runtime, paused clock, seeded RNG"],
@@ -179,8 +179,8 @@ const SPECS: &[PropSpec] = &[
         id: "C20",
         engine: "netsim",
         level: "exploration",
-        runs_quick: 40000,
-        runs_thorough: 800000,
+        runs_quick: 400000,
+        runs_thorough: 6000000,
         rule: "one run = publisher and subscriber on a seeded pair of protocol versions (all four pairs), subscriber QoS 0-2, optional subscription identifier and topic-alias-maximum (v5), literal or wildcard filter, 1-8 publishes at QoS 0-2 with a seeded subset of the 7 MQTT 5 publish properties (2^7 subsets) incl. publisher topic aliases, plus PINGREQ / SUBSCRIBE / UNSUBSCRIBE to force every kind of reply; the subscriber decodes the broker's bytes with the rumqttc codec of its version; non-trivial = all messages compared",
         state_measure: "not measured for this engine (distinct traces only)",
         real: &["rumqttd server::broker::remote() (per-connection task) through Server::verif_accept", "rumqttd link::remote::{mqtt_connect, handle_auth, RemoteLink::new/start}", "rumqttd link::network::Network<V4|V5> and both broker codecs", "rumqttd LinkBuilder::build (block point steps the router)", "rumqttd::Router (whole routing core)", "rumqttc codecs (client side encode/decode)", "tokio current-thread runtime, paused clock, seeded RNG"],
@@ -192,8 +192,8 @@ const SPECS: &[PropSpec] = &[
     id: "C13",
     engine: "logsim",
     level: "exploration",
-    runs_quick: 400_000,
-    runs_thorough: 8_000_000,
+    runs_quick: 2000000,
+    runs_thorough: 40000000,
     rule: "one run = one seeded history of appends (four size classes, bursts) interleaved with reads by 1-4 independent cursor holders using cursors the log issued (tail, entry tag, continuation; fresh and stale) and fabricated cursors, on a seeded segment size/count; distinct = distinct trace hash; non-trivial = at least one eviction happened AND at least one read used a stale cursor or crossed a segment boundary",
     state_measure: "(segments in memory, tail-head, entries mod 256) after every operation",
     real: &["rumqttd::segments::CommitLog", "rumqttd::segments::segment::Segment"],
